@@ -181,6 +181,8 @@ def build(run):
     run.kani(crate_e, [lemma_e], timeout=900)
     crate_f, lemma_f = mn_lemma(run)
     run.kani(crate_f, [lemma_f], timeout=600)
+    crate_h, lemma_h = lift_script_lemma(run)
+    run.kani(crate_h, [lemma_h], timeout=600)
     crate_g, lemma_g = post_loop_lemma(run)
     run.kani(crate_g, [lemma_g], timeout=600)
 
@@ -475,3 +477,62 @@ def post_loop_lemma(run):
                        role=lambda v, o: "emptied-mrow-kept",
                        covers=["all children deleted reachable", "ordinary mrow falls through to the rest of clean_mathml reachable"],
                        claim="an mrow with no children left is removed, replaced by a placeholder when the parent needs the child, or turned into none under mmultiscripts")
+
+
+# ======================================================================================================================
+# D-C02-h: potentially_lift_script ( "[ x ]_0^1" with the scripts on the closing fence ) keeps the arity of the script element
+LIFT_SCRIPT_SHIM = r"""
+macro_rules! vec { () => { Vec::new() }; ($($x:expr),+ $(,)?) => {{ let mut v = Vec::new(); $( v.push($x); )+ v }}; }
+fn is_fence(mo: Element) -> bool { let t = as_text(mo); t == "|" || t == "||" }                 // stand-in for the operator dictionary
+pub struct CanonicalizeContext;
+impl CanonicalizeContext {
+    LIFT_FN
+}
+HARNESS(lift_script_keeps_arity, 16) {
+    const SCRIPT_KINDS: [u8; 3] = [8, 11, 12];                                 // msub msup msubsup
+    let kind = SCRIPT_KINDS[sym::below(3)];
+    let row = dom::new_node(5);
+    let open = dom::new_node(7); dom::set_leaf(open, 11); row.append_child_id(open.id);
+    let x = dom::new_node(0); dom::set_leaf(x, 4); row.append_child_id(x.id);
+    let script = dom::new_node(kind);
+    let close = dom::new_node(7); dom::set_leaf(close, if sym::bool() { 11 } else { 3 });          // a fence, or '+' (not the case of interest)
+    script.append_child_id(close.id);
+    let s1 = dom::new_node(6); dom::set_leaf(s1, 5); script.append_child_id(s1.id);
+    let s2 = dom::new_node(6); dom::set_leaf(s2, 5);
+    if kind == 12 { script.append_child_id(s2.id); }
+    row.append_child_id(script.id);
+    let arity = script.children().len();
+    let r = CanonicalizeContext.potentially_lift_script(row);
+    cover!(r.id == script.id && kind == 12, "msubsup lifted reachable");
+    cover!(r.id == row.id, "row left alone reachable");
+    if r.id == script.id {
+        let ch = r.children();
+        assert!(ch.len() == arity, "the script element has a different number of children after the fenced group became its base");
+        assert!(as_element(ch[0]).id == row.id && as_element(ch[1]).id == s1.id && (kind != 12 || as_element(ch[2]).id == s2.id), "base or scripts are not the original ones, in order");
+        let rc = row.children();
+        assert!(rc.len() == 3 && as_element(rc[0]).id == open.id && as_element(rc[1]).id == x.id && as_element(rc[2]).id == close.id, "the fenced group is not open, content, close");
+    } else {
+        assert!(r.id == row.id && script.children().len() == arity && row.children().len() == 3, "a row that is not the case of interest was changed");
+    }
+}
+"""
+
+
+def api_lift_script(vals=None, out=None):
+    import re
+    res = mcprobe([("mathml", "<math><mrow><mo>[</mo><msup><mi>x</mi><mn>2</mn></msup><msubsup><mo>]</mo><mn>0</mn><mn>1</mn></msubsup></mrow></math>")])
+    m = re.search(r"<msubsup[^>]*>(.*)</msubsup>", res[0][1], re.S) if res[0][0] == "OK" else None
+    ok = m is not None and ">0<" in res[0][1] and ">1<" in res[0][1]
+    return not ok, {"script": "set_mathml([x^2]_0^1 with the scripts on the closing bracket): both limits must survive", "result": res[0]}
+
+
+def lift_script_lemma(run):
+    c = slicer.Source.get("src/canonicalize.rs")
+    f = c.find("impl CanonicalizeContext", "fn potentially_lift_script")
+    run.uses(f)
+    crate = kani_run.Crate("c02lift", prelude.MINIDOM + LIFT_SCRIPT_SHIM.replace("LIFT_FN", f.text))
+    run.bound("D-C02-h", "potentially_lift_script verbatim on the row [fence, x, script(close, s1[, s2])] with script in {msub, msup, msubsup} and the base of the script a fence or not (model DOM)")
+    run.assume("model DOM (MINIDOM); is_fence replaced by 'the text is a vertical bar'; vec! builds the model vector")
+    return crate, dict(id="D-C02-h.lift_script_keeps_arity", harness="lift_script_keeps_arity", api=lambda v, o: api_lift_script(),
+                       role=lambda v, o: "script-arity-changed-by-lift", covers=["msubsup lifted reachable", "row left alone reachable"],
+                       claim="the script element keeps all its children (the fenced row becomes child 0, the scripts stay), the row becomes open-content-close")
